@@ -361,8 +361,16 @@ func (self *Core) runInstruction(instruction compiler.Instruction) *value.VmInte
 		}
 		r := rRaw.(value.ValueInt).Inner
 		l := lRaw.(value.ValueInt).Inner
-		res := math.Pow(float64(l), float64(r))
-		self.push(value.NewValueInt(int64(res)))
+		// Integers are exponentiated exactly: going through `float64` loses precision beyond 2^53.
+		res, divisionByZero := intPow(l, r)
+		if divisionByZero {
+			return self.fatalErr(
+				"Division by zero error: this is operation is illegal",
+				value.Vm_ValueErrorKind,
+				self.parent.SourceMap(*self.callFrame()),
+			)
+		}
+		self.push(value.NewValueInt(res))
 	case compiler.Opcode_Div:
 		r := *self.pop()
 		l := *self.pop()
@@ -689,4 +697,34 @@ func (self *Core) runInstruction(instruction compiler.Instruction) *value.VmInte
 
 	self.callFrame().InstructionPointer++
 	return nil
+}
+
+// Exact integer exponentiation (wraps around like the other integer operators).
+// A negative exponent yields the truncated rational result: only the bases 1 and -1 do not yield 0.
+func intPow(base int64, exponent int64) (result int64, divisionByZero bool) {
+	if exponent < 0 {
+		switch base {
+		case 0:
+			return 0, true
+		case 1:
+			return 1, false
+		case -1:
+			if exponent%2 == 0 {
+				return 1, false
+			}
+			return -1, false
+		default:
+			return 0, false
+		}
+	}
+
+	result = 1
+	for exponent > 0 {
+		if exponent&1 == 1 {
+			result *= base
+		}
+		base *= base
+		exponent >>= 1
+	}
+	return result, false
 }
